@@ -160,16 +160,46 @@ Definition gt_leb (a b : gtime) : bool :=
 Definition C02_ts_ok (x y r : gtime) : bool :=
   gt_wfb r && ((gt_leb x r && gt_leb r y) || (gt_leb y r && gt_leb r x)).
 
-(* timestamped measurements: tagged = the offsets with the tag "correct" (as for durations),
-   ms = the slice before the call, res = the returned measurement, after = the slice after the call.
-   The two selected measurements are read off the slice as the implementation left it. *)
-Definition C02_meas_ftm_ok (tagged : list (Z * bool)) (ms : list tmeas) (res : tmeas) (after : list tmeas) : bool :=
+(* ---- containment for EVERY choice of the arbitrary positions ----
+   The property quantifies over every choice of at most f = floor((n-1)/3) arbitrary positions.  A result
+   lies within the range of the remaining values for every such choice iff it lies between the (f+1)-th
+   smallest and the (f+1)-th largest value (Proofs: ftm_every_choice_iff; remove the f smallest, or the f
+   largest, to see "only if").  The oracle tests that; it sorts the input itself. *)
+Definition contained_for_every_choice (l : list Z) (res : Z) : Prop :=
+  forall tl : list (Z * bool), map fst tl = l -> (nbad tl <= (length l - 1) / 3)%nat ->
+    lmin (goods tl) <= res <= lmax (goods tl).
+Definition C02_ftm_strong_ok (l : list Z) (res : Z) : bool :=
+  let n := length l in let f := ((n - 1) / 3)%nat in let s := zsort l in
+  if Nat.leb 1 n && forallb (fun x => Z.abs x <? 2^62) l
+  then (nth f s 0 <=? res) && (res <=? nth (n - 1 - f) s 0) else true.
+
+(* tagging of a list by position: (x, p i) for the element x at position i (counted from i0) *)
+Fixpoint tagi (p : nat -> bool) (i0 : nat) (s : list Z) : list (Z * bool) :=
+  match s with [] => [] | x :: r => (x, p i0) :: tagi p (S i0) r end.
+
+(* timestamped measurements: ms = the slice before the call, res = the returned measurement, after = the
+   slice after the call.  The two selected measurements are read off the slice as the implementation left it. *)
+Definition C02_meas_ftm_ok (ms : list tmeas) (res : tmeas) (after : list tmeas) : bool :=
   C02_reorder_m_ok ms after
   && negb (tm_err res)
   && (let '(x, y) := sel_ftm after in C02_ts_ok (tm_ts x) (tm_ts y) (tm_ts res))
-  && C02_ftm_ok tagged (tm_off res).
+  && C02_ftm_strong_ok (map tm_off ms) (tm_off res).
 Definition C02_meas_median_ok (ms : list tmeas) (res : tmeas) (after : list tmeas) : bool :=
   C02_reorder_m_ok ms after
   && negb (tm_err res)
   && (let '(x, y) := sel_median after in C02_ts_ok (tm_ts x) (tm_ts y) (tm_ts res))
   && C02_median_ok (map tm_off ms) (tm_off res).
+
+(* ---- independence of the order of the inputs, measurements ----
+   r1, r2 = the results of the same function on a slice and on a permuted copy of it.  The offset and the nil
+   error never depend on the order.  The timestamp is that of the two SELECTED measurements: with tied offsets
+   which records are selected is the (unstable) sort's choice, so the property text "independent of the order of
+   the inputs" can hold for the timestamp only when the offsets are pairwise distinct (Proofs:
+   meas_order_independent, meas_tie_order_refuted).  C02_meas_perm_ok is what holds; C02_meas_perm_strict_ok is
+   the property text taken literally (kind ftm.meas.tieorder). *)
+Fixpoint nodupb (l : list Z) : bool :=
+  match l with [] => true | x :: r => negb (existsb (Z.eqb x) r) && nodupb r end.
+Definition C02_meas_perm_ok (ms : list tmeas) (r1 r2 : tmeas) : bool :=
+  (tm_off r1 =? tm_off r2) && negb (tm_err r1) && negb (tm_err r2)
+  && (if nodupb (map tm_off ms) then gt_eqb (tm_ts r1) (tm_ts r2) else true).
+Definition C02_meas_perm_strict_ok (r1 r2 : tmeas) : bool := tm_eqb r1 r2.
